@@ -1404,13 +1404,62 @@ def _sd_notify(ex, st, self_v, args, kwargs, node):
     return R1(ex, st, NONE)
 
 
-@contract("gunicorn.arbiter:Arbiter.init_signals", props=("C14",))
+def _flagfd(name):
+    def f(ex, st, self_v, args, kwargs, node):
+        from pyvc.smt import const_int
+        d = dict(st.ghost.get(name, {}))
+        d[str(args[0].t)] = True
+        st.ghost[name] = d
+        return R1(ex, st, NONE)
+    return f
+
+
+def _os_pipe(ex, st, self_v, args, kwargs, node):
+    bad = st.fork()
+    return [ex.res(st, STuple([SInt(z3.Int("newpipe.r")), SInt(z3.Int("newpipe.w"))])), ex.res_exc(bad, oserror(_errno.EMFILE))]
+
+
+def _os_close_rec(ex, st, self_v, args, kwargs, node):
+    st.ghost["closed_fds"] = list(st.ghost.get("closed_fds", [])) + [str(args[0].t)]
+    return R1(ex, st, NONE)
+
+
+@contract("gunicorn.arbiter:Arbiter.init_signals", props=("C14", "C03"))
 class InitSignals(Contract):
-    """TRUSTED: installs the signal handlers and the wake-up pipe (no effect on the state C14 speaks about)"""
-    trusted = True
+    """every signal of Arbiter.SIGNALS is routed to the queueing handler Arbiter.signal, SIGCHLD to handle_chld; the old
+    wake-up pipe is closed and a new one created with both ends non-blocking and close-on-exec"""
+
+    def cases(self, env):
+        from .workerlife import _signal_signal
+        st = State()
+        env.use_class("gunicorn.arbiter", "Arbiter")
+        a = st.alloc(HObj("Arbiter", {"PIPE": st.alloc(HList([SInt(z3.Int("oldpipe.r")), SInt(z3.Int("oldpipe.w"))])), "log": mk_logger(env, st)}))
+        STUBS.update({"signal.signal": _signal_signal, "os.pipe": _os_pipe, "posix.pipe": _os_pipe, "os.close": _os_close_rec, "posix.close": _os_close_rec,
+                      "gunicorn.util.set_non_blocking": _flagfd("nonblocking"), "gunicorn.util.close_on_exec": _flagfd("cloexec")})
+        st.ghost.update({"handlers": {}, "nonblocking": {}, "cloexec": {}, "closed_fds": []})
+        return [("init", st, {"self": a}, {})]
 
     def raises(self, c):
         return [(OSError, None)]
+
+    def post(self, c):
+        if c.mode == "call":
+            return []
+        import signal as _sg
+        from .workerlife import _handler_name
+        g = c.st.ghost
+        live = c.ex.env.repo.live("gunicorn.arbiter")
+        h = {k: _handler_name(v) for k, v in g["handlers"].items()}
+        sigs = [int(x) for x in live.Arbiter.SIGNALS]
+        new = ["newpipe.r", "newpipe.w"]
+        pipe = A(c).fields["PIPE"]
+        return [("every-master-signal-is-queued-by-Arbiter.signal", TRUE if all(h.get(s) == "signal" for s in sigs) else FALSE),
+                ("SIGCHLD-goes-to-handle_chld", TRUE if h.get(int(_sg.SIGCHLD)) == "handle_chld" else FALSE),
+                ("old-pipe-closed", TRUE if g["closed_fds"] == ["oldpipe.r", "oldpipe.w"] else FALSE),
+                ("new-pipe-ends-are-non-blocking-and-close-on-exec", TRUE if all(n in g["nonblocking"] and n in g["cloexec"] for n in new) else FALSE),
+                ("PIPE-is-the-new-pipe", TRUE if (isinstance(pipe, STuple) and [str(x.t) for x in pipe.items] == new) else FALSE)]
+
+    loops = {0: dict(anchor="for p in self.PIPE", cands=[]), 1: dict(anchor="for p in pair", cands=[]), 2: dict(anchor="for s in self.SIGNALS", cands=[])}
 
 
 @contract("gunicorn.arbiter:Arbiter.start", props=("C14", "C17"))
